@@ -187,6 +187,15 @@ class DurCtx:
             added += len(fresh)
         return added
 
+    def feasible_local(self, st, extra):
+        """Feasibility of `extra` against only those path constraints whose atoms all occur in `extra`
+        (an over-approximation of feasibility: cheap, used to skip impossible case splits)."""
+        atoms = set()
+        for l, _ in extra:
+            atoms.update(l.c.keys())
+        loc = [(l, o) for l, o in st.cons if l.c and all(a in atoms for a in l.c)]
+        return feasible(loc + list(extra), st.bnd)
+
     def implies_eq(self, st, a, b, extra=()):
         """cons(st) + extra |= a == b (st is expected to be congruence-closed, see close())."""
         d = a - b
@@ -194,6 +203,40 @@ class DurCtx:
         if d.is_const():
             return d.k == 0
         return implies(cons, d, "==", st.bnd)
+
+    def simplify(self, lin):
+        """Rewrite with the definitional identities of the atoms (sound: each identity is a constraint of every
+        path that created the atom):  NPC*dur[S].c + dur[S].n -> S ;  k*ediv(x,k) + erem(x,k) -> x ; same for tdiv/trem."""
+        for _ in range(64):
+            changed = False
+            by_def = {}
+            for a in lin.c:
+                if a.kind in ("dur.c", "dur.n"):
+                    by_def.setdefault(("dur", a.defn.key()), {})[a.kind] = a
+                elif a.kind in ("ediv", "erem", "tdiv", "trem"):
+                    x, k = a.defn
+                    by_def.setdefault((a.kind[0], x.key(), k), {})[a.kind[1:]] = a
+            for key, d in by_def.items():
+                if key[0] == "dur" and "dur.c" in d and "dur.n" in d:
+                    ca, na = d["dur.c"], d["dur.n"]
+                    m = lin.c[na]
+                    if lin.c[ca] == m * self.NPC:
+                        rest = Lin({k: v for k, v in lin.c.items() if k is not ca and k is not na}, lin.k)
+                        lin = rest + ca.defn.scale(m)
+                        changed = True
+                        break
+                elif key[0] in ("e", "t") and "div" in d and "rem" in d:
+                    qa, ra = d["div"], d["rem"]
+                    x, k = qa.defn
+                    m = lin.c[ra]
+                    if lin.c[qa] == m * k:
+                        rest = Lin({kk: v for kk, v in lin.c.items() if kk is not qa and kk is not ra}, lin.k)
+                        lin = rest + x.scale(m)
+                        changed = True
+                        break
+            if not changed:
+                break
+        return lin
 
     def implies(self, st, lin, op, extra=()):
         return implies(list(st.cons) + list(extra), lin, op, st.bnd)
